@@ -739,6 +739,21 @@ class Executor:
                 else:
                     yield (list(v.items) if star else [v]) + rest, s3
 
+    def e_Dict(self, e, st):
+        if any(k is None for k in e.keys):
+            raise Unsupported("dict unpacking")
+        for vals, s2 in self.eval_list(list(e.keys) + list(e.values), st):
+            if isinstance(vals, Raised):
+                yield vals, s2
+                continue
+            n = len(e.keys)
+            d = {}
+            for k, v in zip(vals[:n], vals[n:]):
+                if not (isinstance(k, VStr) and k.conc is not None):
+                    raise Unsupported("dict literal with non-constant key")
+                d[k.conc] = v
+            yield VDict(d, fresh=True), s2
+
     def e_JoinedStr(self, e, st):
         parts = []
         for p in e.values:
@@ -1021,6 +1036,9 @@ class Executor:
                 return z3.Or([V.str_eq(ctx, item, lit(o)) for o in objs if isinstance(o, str)] + [z3.BoolVal(False)])
             if isinstance(item, VInt):
                 return V.in_set(item.t, [o for o in objs if isinstance(o, int)])
+        if isinstance(container, VConst) and isinstance(container.obj, range) and container.obj.step == 1 \
+                and isinstance(item, VInt):
+            return z3.And(item.t >= container.obj.start, item.t < container.obj.stop)
         if isinstance(container, VDict):
             if isinstance(item, VStr) and item.conc is not None:
                 return z3.BoolVal(item.conc in container.d)
